@@ -142,7 +142,8 @@ int UTIL_requireUserConfirmation(const char* prompt, const char* abortMsg,
     UTIL_DISPLAY("%s", prompt);
     ch = getchar();
     result = 0;
-    if (strchr(acceptableLetters, ch) == NULL) {
+    if ((ch == EOF) || (ch == 0)   /* strchr() finds '\0' : the terminator of acceptableLetters */
+      || (strchr(acceptableLetters, ch) == NULL)) {
         UTIL_DISPLAY("%s \n", abortMsg);
         result = 1;
     }
